@@ -40,7 +40,7 @@ class AssertionFailed(Exception):
 
 
 SAFE_BUILTINS = {'len', 'range', 'enumerate', 'zip', 'sum', 'tuple', 'list', 'isinstance', 'max', 'min', 'sorted', 'reversed', 'any', 'all', 'str', 'int', 'bool', 'abs', 'set', 'frozenset', 'dict'}
-SAFE_METHODS = {'append', 'extend', 'join', 'index', 'count', 'insert', 'pop', 'copy', 'items', 'keys', 'values', 'get', 'format', 'startswith', 'endswith'}
+SAFE_METHODS = {'split', 'rsplit', 'partition', 'strip', 'append', 'extend', 'join', 'index', 'count', 'insert', 'pop', 'copy', 'items', 'keys', 'values', 'get', 'format', 'startswith', 'endswith'}
 
 
 class MiniExec:
@@ -181,6 +181,18 @@ class MiniExec:
             env[t.id] = v
         elif isinstance(t, (ast.Tuple, ast.List)):
             v = list(v)
+            stars = [i for i, x in enumerate(t.elts) if isinstance(x, ast.Starred)]
+            if len(stars) == 1:
+                i = stars[0]
+                after = len(t.elts) - i - 1
+                if len(v) < len(t.elts) - 1:
+                    raise Unsupported('unpacking of too few values')
+                for x, y in zip(t.elts[:i], v[:i]):
+                    self._bind(x, y, env)
+                self._bind(t.elts[i].value, v[i:len(v) - after], env)
+                for x, y in zip(t.elts[i + 1:], v[len(v) - after:] if after else []):
+                    self._bind(x, y, env)
+                return
             if len(v) != len(t.elts):
                 raise Unsupported('unpacking of a different length')
             for x, y in zip(t.elts, v):
